@@ -76,7 +76,8 @@ func setBucket(d []byte, bits uint8, bucket uint32) {
 // concentrated in few buckets and sharing long prefixes by construction.
 func genKeys(t *rapid.T, cfg Config, minKeys, maxKeys int) []KeySpec {
 	n := rapid.IntRange(minKeys, maxKeys).Draw(t, "nkeys")
-	coreLen := []int{4, 5, 6, 8, 12, 20, 32, 40}[weighted(t, "corelen", []int{2, 6, 8, 8, 4, 2, 6, 1})]
+	// 64-byte digests make multihashes / CIDs of more than 64 bytes.
+	coreLen := []int{4, 5, 6, 8, 12, 20, 32, 40, 64}[weighted(t, "corelen", []int{2, 6, 8, 8, 4, 2, 6, 1, 2})]
 	alpha := []int{2, 3, 256}[weighted(t, "alphabet", []int{5, 3, 2})]
 	base := rapid.SliceOfN(rapid.Byte(), 4, 4).Draw(t, "base")
 	if cfg.Bits >= 13 && weighted(t, "chunkBoundary", []int{2, 1}) == 1 {
@@ -117,13 +118,16 @@ func genKeys(t *rapid.T, cfg Config, minKeys, maxKeys int) []KeySpec {
 		seen[string(d)] = true
 		// Mixed lengths: cores are distinct and of equal length, so extending
 		// some of them keeps the pool prefix-free.
-		if coreLen != 32 && weighted(t, "extend", []int{4, 1}) == 1 {
+		if coreLen != 32 && coreLen != 64 && weighted(t, "extend", []int{4, 1}) == 1 {
 			ext := rapid.SliceOfN(rapid.Byte(), 1, 6).Draw(t, "ext")
 			d = append(d, ext...)
 		}
 		ks := KeySpec{Digest: d, Code: 0x00}
 		if len(d) == 32 {
 			ks.Code = []uint64{0x12, 0x00, 0x16, 0xb220}[weighted(t, "code", []int{6, 2, 1, 1})]
+		}
+		if len(d) == 64 {
+			ks.Code = []uint64{0x13, 0x00, 0x14, 0xb240}[weighted(t, "code64", []int{4, 2, 1, 1})]
 		}
 		if cfg.Primary == store.CIDPrimary {
 			ks.Codec = []uint64{cid.Raw, cid.DagProtobuf, cid.DagCBOR}[weighted(t, "codec", []int{3, 2, 1})]
